@@ -51,6 +51,7 @@ REPRESENTATIVE_TABLES = {
     "onebin_chroms":  table_from_edges([[0, 3], [0, 2], [0, 4]]),
     "two_fixed":      binnify([4, 4], 2),
     "long_last":      table_from_edges([[0, 2, 4, 9], [0, 2, 5]]),   # last bin longer than the others
+    "grid_long_single": table_from_edges([[0, 2, 4, 6], [0, 5]]),  # uniform grid + a contig covered by one longer bin
 }
 
 
